@@ -294,6 +294,8 @@ class H5Group:
 
     def copy(self, source, dest, name=None, cls=None, shallow=False,
              keep_id=True):
+        # decide first: a flag without a truth value must not be found out after the copy is made
+        keep_id = bool(keep_id)
         grp = self.group
         dest.open_group(cls, create=True)
         dest_grp = dest.group[cls]
